@@ -62,7 +62,7 @@ def main():
     rc, out = sh(f"git -C {REPO} apply {patch} 2>&1 || git -C {REPO} apply --3way {patch}")
     if rc != 0:
         res["repo_apply"] = "FAILED: " + out[-400:]
-        sh(f"git -C {REPO} checkout HEAD -- . && git -C {REPO} clean -fdq")
+        sh(f"git -C {REPO} reset -q --hard HEAD && git -C {REPO} clean -fdq")
         print(json.dumps(res, indent=1)); return
     try:
         for p in props:
@@ -76,7 +76,7 @@ def main():
             if rc == 2:
                 res[f"{p}_output"] = out[-1500:]
     finally:
-        sh(f"git -C {REPO} checkout HEAD -- . && git -C {REPO} clean -fdq")
+        sh(f"git -C {REPO} reset -q --hard HEAD && git -C {REPO} clean -fdq")
         rc, out = sh(f"git -C {REPO} status --porcelain")
         assert out.strip() == "", REPO + " not clean after undo: " + out
     print(json.dumps(res, indent=1))
